@@ -173,6 +173,9 @@ LEVEL_TEXT = ("Machine-checked proof (Coq 8.16) over an executable model of Sess
               "differential correspondence run of the real SessionManager against the extracted model with the property's "
               "own oracle; thorough tier adds a black-box worker run comparing gauges with the idle baseline.")
 LEVEL_NOTE = ("Trusted: Coq kernel; extraction + ocaml/driver.ml for the correspondence only; the call-site disciplines are "
-              "replicated in the driver (that every session exit path runs them is black-box evidence, not a theorem); "
-              "buffer pool and backend gauges are covered only by the black-box tier; timers/zombie reclamation not modelled.")
+              "replicated in the driver. That every session exit path runs them is black-box evidence, not a theorem: a real "
+              "worker driven over HTTP/1, TLS, HTTP/2, WebSocket(S) and TCP with 27 scripted outcomes (resets, refusals, "
+              "backend gone mid-response, stalled handshakes / bodies, storms, eviction, zombie check, per-ip limit changed at "
+              "run time), gauges + per-backend load counters (snapshot hook) + per-ip slots (token-aware probe) back to the idle "
+              "baseline, gauge-underflow counter hook at zero. Accept queue and timers are exercised, not modelled.")
 TECHNIQUE = "Rocq/Coq proof over an executable Gallina model + differential correspondence (extracted OCaml vs real crate)"
